@@ -19,7 +19,7 @@ RULE = ('cases: RDKit-sane molecule models (C N O S F Cl Br, charged centres, ri
         'and every bonded pair lies within 1.4 x the sum of covalent radii (must fail in three embeddings while an '
         'independent embedding of the model passes, otherwise inconclusive); (c) forward_map_molecule puts every '
         'bead at sum(w x)/sum(w) over exactly its member atoms (1e-9) and translating all atoms by t translates '
-        'every bead by t. Embedding failures of RDKit are counted as inconclusive. non-trivial = >=2 fragments '
+        'every bead by t (10 %: polymers in which one weight-annotated fragment occurs several times, clause c only). Embedding failures of RDKit are counted as inconclusive. non-trivial = >=2 fragments '
         '(iteration order differs from key order) or a non-unit weight; distinct = string + node order')
 ASSUMPTIONS = ['RDKit and pysmiles agree on aromaticity for the generated molecules (restriction 8 in DESIGN.md)',
                'RDKit embedding is stochastic; only a coarse geometric predicate is asserted']
@@ -56,7 +56,33 @@ def rdkit_sane(m):
     return True
 
 
+MONOMERS = [['[>]', 'C', 'C', 'O', '[<]'], ['[>]', 'C', '(', 'C', ')', 'C', '[<]'], ['[$]', 'C', 'C', '[$]'],
+            ['[>]', 'C', 'C', '(', 'c', '1', 'c', 'c', 'c', 'c', 'c', '1', ')', '[<]'], ['[>]', 'N', 'C', 'C', '(', '=', 'O', ')', '[<]'],
+            ['[$]', 'C', 'S', 'C', '[$]']]
+
+
+def gen_polymer(R, tier):
+    """the SAME fragment several times in one molecule (multiplier), atoms annotated with weights: copies at
+    the chain ends are completed with other hydrogens than inner copies (bead = weighted average, clause c only)"""
+    names = ['A', 'B']
+    defs = []
+    for nm in names:
+        toks = list(R.choice(MONOMERS))
+        idx = [i for i, t in enumerate(toks) if t.isalpha()]
+        for i in R.sample(idx, R.randint(1, min(2, len(idx)))):
+            toks[i] = '[%s;%s]' % (toks[i], R.choice(['0.5', '2', '0.25', '0', '3']))
+        defs.append('#%s=%s' % (nm, ''.join(toks)))
+    n, k = R.randint(2, 6), R.randint(1, 3)
+    base = R.choice(['{[#A]|%d}' % n, '{[#A]|%d[#B]|%d}' % (n, k), '{[#B][#A]|%d[#B]}' % n, '{[#A]([#B])|%d}' % n])
+    used = [d for d in defs if '[#%s]' % d[1] in base]
+    return dict(kind='polymer', input=base + '.{' + ','.join(used) + '}', nfr=n, weights=True, perm_seed=R.randint(0, 10 ** 6),
+                coords_seed=R.randint(0, 10 ** 6), shift=[R.uniform(-20, 20), R.uniform(-20, 20), R.uniform(-20, 20)],
+                features=['polymer_repeated_weighted_fragment'])
+
+
 def gen(R, tier):
+    if R.chance(0.1):
+        return gen_polymer(R, tier)
     c = dict(R.choice(CLASSES))
     cname = c.pop('name')
     m = molgen.gen_mol(R, **c)
@@ -177,6 +203,10 @@ def oracle(case):
     from cgsmiles.rdkit import rdkit_to_networkx, networkx_to_rdkit, embed_3d_via_rdkit
     from cgsmiles.coordinates import forward_map_molecule
     RDLogger.DisableLog('rdApp.*')
+    if case.get('kind') == 'polymer':
+        cg, fine = sut(resolve, case['input'])
+        check_forward_map(case, cg, [('resolved', fine), ('permuted node order', permuted(fine, case['perm_seed']))])
+        return
     model_g = molgen.model_graph(case['model'])
     ref = model_rdkit(case['model'])
     if ref is None:
@@ -308,6 +338,13 @@ def oracle(case):
             p = cg4.nodes[k].get('position')
             expect(p is not None and np.allclose(p, want, atol=1e-9), 'map:bead-not-weighted-average',
                    lambda: 'embedd_cg_molecule_via_rdkit: bead %r at %r, weighted average of its atoms is %r' % (k, p, want))
+    check_forward_map(case, cg, graphs)
+
+
+def check_forward_map(case, cg, graphs):
+    import numpy as np
+    import random
+    from cgsmiles.coordinates import forward_map_molecule
     # (c) forward mapping
     rnd = random.Random(case['coords_seed'])
     t = np.array(case['shift'])
